@@ -274,8 +274,17 @@ func (l *listenContext) createEndpointAndPerformHandshake(s *segment, opts *head
 func (e *endpoint) deliverAccepted(n *endpoint) {
 	e.mu.RLock()
 	if e.state == stateListen {
-		e.acceptedChan <- n
-		e.waiterQueue.Notify(waiter.EventIn)
+		// Never block on a full accept queue while holding e.mu: a Close,
+		// Shutdown or Listen of the listener (which need the write lock) would
+		// wait for this goroutine for ever, and this goroutine for an Accept
+		// that may never come. A connection that does not fit is closed.
+		// 接受队列已满时不能持锁阻塞(否则监听端的Close/Shutdown/Listen会死锁)，放不下的连接直接关闭
+		select {
+		case e.acceptedChan <- n:
+			e.waiterQueue.Notify(waiter.EventIn)
+		default:
+			n.Close()
+		}
 	} else {
 		n.Close()
 	}
